@@ -201,6 +201,19 @@ def run_case(case):
             if drv in sc.HID:
                 if subs[k]["shared"]:       # a subscriber keeps its kind when it re-subscribes
                     handles[k] = sim.driver.bus_traffic.register(shared_fn)
+                elif ev.get("oneshot"):
+                    # a subscriber that wants one report only: it unregisters itself from inside its callback.  What it
+                    # gets itself is not judged (reports of the same instant may or may not slip through); the others'
+                    # reports and the driver's own work must not be disturbed
+                    subs[k]["unjudged"] = True
+
+                    def once(d, c, r, e, k=k):
+                        subs[k]["log"].append((sim.loop.time(), cmd_fp(c), resp_fp(r), bool(e)))
+                        h = handles.get(k)
+                        if h is not None:
+                            handles[k] = None
+                            h.unregister()
+                    handles[k] = sim.driver.bus_traffic.register(once)
                 elif ev.get("raises"):
                     def bad(d, c, r, e, k=k, m=ev["raises"]):
                         subs[k]["log"].append((sim.loop.time(), cmd_fp(c), resp_fp(r), bool(e)))
@@ -261,7 +274,7 @@ def run_case(case):
         if reopened:
             reports = sorted(reports + [(t, "reset", 0, 0) for t in reopened], key=lambda x: x[0])
         exp = ref_watch(reports, dmap)
-        own = {k: v for k, v in subs.items() if not v.get("shared")}
+        own = {k: v for k, v in subs.items() if not v.get("shared") and not v.get("unjudged")}
         shared = {k: v for k, v in subs.items() if v.get("shared")}
         out = compare_callbacks(drv, exp, own, obs)
         if shared and not out:
@@ -286,7 +299,7 @@ def run_case(case):
             for c in cspec["cmds"]:
                 cmd = sc.build_cmd(c)
                 exp.append(cmd)
-        return compare_hasseb(exp, subs, obs, case)
+        return compare_hasseb(exp, {k: v for k, v in subs.items() if not v.get("unjudged")}, obs, case)
     return compare_serial(drv, case, subs, obs, dmap)
 
 
@@ -610,6 +623,9 @@ def case_strategy(draw, driver=None):
         elif drv in ("tridonic", "hasseb") and draw(st.integers(0, 3)) == 0:
             events[-1]["drop_handle"] = True
             continue
+        elif drv in ("tridonic", "hasseb") and draw(st.integers(0, 3)) == 0:
+            events[-1]["oneshot"] = True
+            continue
         elif drv == "tridonic" and k >= 1 and draw(st.integers(0, 2)) == 0:
             events[-1]["shared"] = True
             if draw(st.booleans()):
@@ -643,6 +659,8 @@ def features(case):
         f.append("device-lost-and-back-mid-history")
     if any(e.get("raises") for e in case.get("events", [])):
         f.append("subscriber-whose-callback-raises")
+    if any(e.get("oneshot") for e in case.get("events", [])):
+        f.append("subscriber-that-unregisters-itself-in-its-callback")
     if any(e.get("drop_handle") for e in case.get("events", [])):
         f.append("subscriber-that-does-not-keep-its-handle")
     if any(x.get("same_as_own") for x in case.get("inject", [])):
